@@ -30,16 +30,16 @@ LHS = [
 ]
 RHS = {
     "==": ["5", "6", "1.5", '"ab"', '"zz"', "true", "null", "[1, 2, 3]", "[5]", '{ "a": 1 }', "/^a/", "/zz/", "r[1,10]", "r(5,9)",
-           "%lit5", "%litab", "j", "t", "zz", "l[*]", "%qj"],
-    "<": ["5", "6", "4", "1.5", "2.5", '"b"', '"a"', "true", "%lit5", "j", "[6]"],
+           "%lit5", "%litab", "j", "t", "zz", "l[*]", "%qj", "to_lower(t)", 'join(ls, "")', "count(l)", "count(l1[*])", "parse_int(%s5)"],
+    "<": ["5", "6", "4", "1.5", "2.5", '"b"', '"a"', "true", "%lit5", "j", "[6]", "count(l)", "parse_int(%s5)", "to_upper(t)"],
     "<=": ["5", "4", "1.5", '"ab"', "j"],
-    ">": ["5", "4", "6", "0.5", '"aa"', "%lit5", "j", "nest.k.v"],
-    ">=": ["5", "6", "1.5", '"ab"', "j"],
+    ">": ["5", "4", "6", "0.5", '"aa"', "%lit5", "j", "nest.k.v", "count(l)", "to_upper(t)"],
+    ">=": ["5", "6", "1.5", '"ab"', "j", "parse_int(%s5)", "to_lower(t)"],
     "in": ["[5, 6]", "[1, 2]", "[1, 2, 3, 4]", '["ab", "cd"]', "[1.5]", "[true]", "[null]", "r[1,10]", "r(5,9]", "%litlist", "l", '"xaby"', "[[1, 2, 3]]",
            "l[*]", "ls", "ls[*]", "%ql", "%qls", "l1", "l1[*]"],
 }
 UNARY = gen.UNARY
-PRELUDE = 'let lit5 = 5\nlet litab = "ab"\nlet litlist = [5, "ab"]\nlet qj = j\nlet ql = l\nlet qls = ls[*]\n'
+PRELUDE = 'let s5 = "5"\nlet lit5 = 5\nlet litab = "ab"\nlet litlist = [5, "ab"]\nlet qj = j\nlet ql = l\nlet qls = ls[*]\n'
 FLIP = {"PASS": "FAIL", "FAIL": "PASS", "SKIP": "SKIP"}
 INV = {"<": ">=", "<=": ">", ">": "<=", ">=": "<"}
 
@@ -63,7 +63,9 @@ def typ(v):
 def rhs_model(txt):
     """model of a right-hand side: ('lit', value) / ('re',) / ('range','int'|'float') / None (unknown)"""
     table = {"5": 5, "6": 6, "4": 4, "1.5": 1.5, "2.5": 2.5, "0.5": 0.5, '"ab"': "ab", '"zz"': "zz", '"b"': "b", '"a"': "a",
-             '"aa"': "aa", "true": True, "null": None, "%lit5": 5, "%litab": "ab", "j": 5, "t": "ab", "%qj": 5, "nest.k.v": 2}
+             '"aa"': "aa", "true": True, "null": None, "%lit5": 5, "%litab": "ab", "j": 5, "t": "ab", "%qj": 5, "nest.k.v": 2,
+             # inline function calls on the right-hand side
+             "to_lower(t)": "ab", 'join(ls, "")': "ab", "count(l)": 3, "count(l1[*])": 1, "parse_int(%s5)": 5, "to_upper(t)": "AB"}
     if txt in table:
         return ("lit", table[txt])
     if txt.startswith("/"):
